@@ -144,7 +144,7 @@ def coerce(ex, v, sort, st):
             return VOpt(v.isnone, coerce(ex, v.val, sort.inner, st))
         return VOpt(z3.BoolVal(False), coerce(ex, v, sort.inner, st))
     if isinstance(sort, S.BDictSort) and isinstance(v, VTBDict) and z3.is_false(z3.simplify(v.has)):
-        return VBDict(z3.Empty(S.SeqBallot), z3.Empty(z3.SeqSort(z3.RealSort())))  # `{}` of a Ballot-keyed dict
+        return VBDict(z3.Empty(S.SeqBallot if sort.kelem == "ballot" else S.SeqSeqStr), z3.Empty(z3.SeqSort(z3.RealSort())), sort.kelem)  # `{}`
     if isinstance(sort, S.Dict) and isinstance(v, VTBDict) and z3.is_false(z3.simplify(v.has)):
         return VDict(S.EMPTY_SET, z3.K(S.PyStr, z3.RealVal(0)), sort.val)  # `{}` of a str->number dict
     if isinstance(v, VOpt) and not isinstance(sort, S.Opt):
